@@ -105,6 +105,9 @@ FieldOf(lf, f) == CASE f = "hour" -> lf.hour [] f = "minute" -> lf.minute [] f =
 FinerRemainder(lf, f) == CASE f = "milli" -> lf.nano % NPM [] f = "micro" -> lf.nano % NPU [] OTHER -> 0
 C09_SetFrameP(L, X, T) ==
   CalledP(L, {"dt_set"}) /\ L.e.f \in ClockFields =>
+     \* a receiver whose own local reading is outside the range (reachable: AddSub keeps the offset and only
+     \* requires the instant to be representable) has no local field to replace: refused
+     IF ~LocalOf(InstOf(L.a), L.a.off).ok THEN L.out = ErrOOR /\ X = L.a ELSE
      LET v == ToInt(L.e.v)  f == L.e.f  before == LocalFields(L.a)  after == LocalFields(X) IN
      IF v > ClockMax(f) THEN L.out = ErrOOR /\ X = L.a
      \* at the two ends of the range the edited local reading may denote an instant outside it: refused as well
